@@ -140,3 +140,56 @@ Theorem parse_course_other_segments cid c c' tid :
 Proof.
   intros H1 H2 H3 H4 (segs & segs' & Hs & Hs' & Ha). unfold parse_course. rewrite Hs, Hs', H1, H2, H3, H4. simpl. rewrite Ha. reflexivity.
 Qed.
+
+(* ---- find_track: which track is selected, and when the document is refused ---- *)
+Lemma ft_tracks_id t pid ts r : ft_tracks t pid ts = ROk (Some r) -> snd (fst r) = t.
+Proof.
+  induction ts as [|[tid tr] trest IH]; intros H; [discriminate|]. cbn in H.
+  destruct (ok_or (parse_u64 tid) 22) as [tidz|]; [|discriminate]. cbn [bind] in H.
+  destruct (tidz =? t)%Z eqn:E; [|apply IH; exact H].
+  destruct (ok_or (parse_u64 pid) 22) as [pidz|]; [|discriminate]. cbn [bind] in H.
+  destruct (ok_or (as_object tr) 23); [|discriminate]. cbn [bind] in H. inversion H; subst. cbn. apply Z.eqb_eq. exact E.
+Qed.
+(* --track t: whatever is selected carries the id t ... *)
+Theorem find_track_some_id parts t p t' td : find_track parts (Some t) = ROk (p, t', td) -> t' = t.
+Proof.
+  unfold find_track. generalize (obj_items parts) as ps. induction ps as [|[pid part] rest IH]; [discriminate|].
+  cbn. destruct (ok_or _ 21) as [tracks|]; [|discriminate]. cbn [bind].
+  destruct (ft_tracks t pid (obj_items tracks)) as [[r|]|] eqn:Er; cbn [bind]; try discriminate.
+  - intros H. inversion H; subst r. apply (ft_tracks_id t pid _ _ Er).
+  - exact IH.
+Qed.
+(* ... and a track id that no part has is refused *)
+Lemma ft_tracks_absent t pid ts : (forall tid tr, In (tid, tr) ts -> parse_u64 tid <> Some t) -> forall r, ft_tracks t pid ts <> ROk (Some r).
+Proof.
+  induction ts as [|[tid tr] trest IH]; intros Hno r H; [discriminate|]. cbn in H.
+  destruct (parse_u64 tid) as [tidz|] eqn:Ep; cbn in H; [|discriminate].
+  destruct (tidz =? t)%Z eqn:E.
+  - apply Z.eqb_eq in E. subst. apply (Hno tid tr (or_introl eq_refl)). exact Ep.
+  - apply (IH (fun tid' tr' Hin => Hno tid' tr' (or_intror Hin)) r H).
+Qed.
+Theorem find_track_unknown parts t :
+  (forall pid part tracks tid tr, In (pid, part) (obj_items parts) -> (match get "tracks" part with Some v => as_object v | None => None end) = Some tracks ->
+                                  In (tid, tr) (obj_items tracks) -> parse_u64 tid <> Some t) ->
+  exists e, find_track parts (Some t) = RErr e.
+Proof.
+  unfold find_track. generalize (obj_items parts) as ps. induction ps as [|[pid part] rest IH]; intros Hno; [eexists; reflexivity|].
+  cbn. destruct (match get "tracks" part with Some v => as_object v | None => None end) as [tracks|] eqn:Et; cbn; [|eexists; reflexivity].
+  destruct (ft_tracks t pid (obj_items tracks)) as [[r|]|e] eqn:Er; cbn [bind].
+  - exfalso. apply (ft_tracks_absent t pid (obj_items tracks) (fun tid tr Hin => Hno pid part tracks tid tr (or_introl eq_refl) Et Hin) r Er).
+  - apply IH. intros pid' part' tracks' tid tr Hin. apply (Hno pid' part' tracks' tid tr (or_intror Hin)).
+  - eexists. reflexivity.
+Qed.
+(* no --track: accepted iff the event has exactly one track overall (codes 24: no track, 25: several tracks) *)
+Theorem find_track_none parts :
+  match tracks_of parts with
+  | ROk [] => find_track parts None = RErr 24
+  | ROk [(pid, tid, tr)] => find_track parts None =
+                            (let* pidz := ok_or (parse_u64 pid) 22 in let* tidz := ok_or (parse_u64 tid) 22 in let* _ := ok_or (as_object tr) 23 in ROk (pidz, tidz, tr))
+  | ROk (_ :: _ :: _) => find_track parts None = RErr 25
+  | RErr e => find_track parts None = RErr e
+  end.
+Proof.
+  unfold find_track. destruct (tracks_of parts) as [all|e]; cbn [bind]; [|reflexivity].
+  destruct all as [|[[pid tid] tr] [|y t]]; reflexivity.
+Qed.
